@@ -62,6 +62,11 @@ def check_calc(mod, tier, seed, extra_modules=()):
                  'theorem, distinct by statement; every trace is replayed numerically against the real code on random '
                  'float64 inputs/nets for each seed and row count',
             generated_file=os.path.relpath(path, ROOT))
+        if getattr(g, 'exact_info', None):
+            rep.coverage['operation_order_model'] = g.exact_info
+            if g.exact_info.get('ieee_identities_sampled', {}).get('failed'):
+                broken.append(dict(kind='trusted-base', detail='an identity of Arith.Exact does not hold in torch on this machine',
+                                   failed=g.exact_info['ieee_identities_sampled']['failed'][:3]))
         allobl = g.obligations + [o for part in getattr(g, 'parts', []) for o in part.obligations]
         rep.samples = [dict(theorem=o.name, statement=o.statement[:400], meaning=o.what) for o in allobl[:: max(1, len(allobl) // 10)]]
     rep.coverage['hostile_environment'] = disturb.stats()
